@@ -30,7 +30,7 @@ FUNCTIONS = [
 ]
 BOUNDS = [
     "trees: C[a,b], C[a,inner[b]], C[inner[a,b]] (depth <=2, <=3 objects below the root); all members share the path length N in {1,2} (quick) / {1,2,3} (thorough)",
-    "operations: move, rotate with anchor in {None, 0, vector, per-step}, position=, orientation=, reset_path, on the root or on an inner collection; "
+    "operations: move, rotate with anchor in {None, 0, vector, per-step, the collection's own .position array, its first child's .position array}, position=, orientation=, reset_path, on the root or on an inner collection; "
     "input length in {scalar, 2}, start in {-2,-1,0,1,2,'auto'} (quick: {-1,0,1,'auto'}, vector rotations only with start 0/'auto', trees flat+nested); "
     "all real poses / unit quaternions / displacements / anchors",
 ]
@@ -44,7 +44,8 @@ TREES = {
     "inner2": ("C", [("I", [("a", []), ("b", [])])]),
 }
 STARTS = [-2, -1, 0, 1, 2, "auto"]
-OPS = ["move", "rotate-none", "rotate-0", "rotate-vec", "rotate-step", "position=", "orientation=", "reset_path"]
+OPS = ["move", "rotate-none", "rotate-0", "rotate-vec", "rotate-step", "rotate-ownpos", "rotate-kidpos", "position=", "orientation=", "reset_path"]
+ALIAS_OPS = ("rotate-ownpos", "rotate-kidpos")  # the anchor argument is the .position array of the collection itself / of its first child
 
 
 def cases(tier, seed):
@@ -195,6 +196,10 @@ def _apply(op, target, N, n_in, start, symbolic=True, env=None, R=None):
             o.rotate(r, anchor=0, start=start)
         elif kind == "vec":
             o.rotate(r, anchor=vec("an", (3,)), start=start)
+        elif kind in ("ownpos", "kidpos"):
+            a = o.position if kind == "ownpos" else o.children[0].position
+            n_anchor = None if np.ndim(a) == 1 else len(a)
+            o.rotate(r, anchor=a, start=start)
         else:
             n_anchor = 2 if n_in != 2 else 3
             o.rotate(r, anchor=vec("an", (n_anchor, 3)), start=start)
@@ -222,6 +227,8 @@ def run_case(case, info):
     for n_in, start in combos:
         if C.tier == "quick" and not case.get("combos") and op.startswith("rotate") and n_in is not None and start not in (0, "auto"):
             continue  # vector rotations with merging starts need the long solver runs: thorough tier
+        if op in ALIAS_OPS and n_in is not None and N > 1 and n_in != N:
+            continue  # anchor (N,3) and a rotation of another length is not a valid call
         CTX.reset([])
         root = build(tree, N)
         target = root if case["target"] == "root" else find(root, case["target"])
@@ -263,6 +270,7 @@ def run_case(case, info):
                 else:
                     terms.append(neq_any(n.obj._position, n.P))
                     terms.append(neq_any(n.obj._orientation.as_quat(), n.Q.q))
+        C.concrete_trace(replay, dict(rp, env={}), f"C10|{op}|relative-pose|{tree}|concrete")
         C.oblige(f"{tag}.relative-poses", CTX.pc + unit + u2, z3.Or(*terms),
                  on_model=lambda env, rp=rp: {"key": f"C10|{op}|relative-pose|{tree}", "replay": dict(rp, env=env)},
                  inputs=inputs + in2, nice=False, quat_groups=qg + qg2, key=f"C10|{op}|relative-pose|{tree}|{n_in}|{start}",
